@@ -73,4 +73,50 @@ func init() {
 		leanTy:    "Int → UInt8 → List UInt8 → List UInt8",
 		deflt:     trDefaults["shellEscape"],
 	})
+	// C15  Pipestance.Lock: the order of its effects and its verdict, as a function of the outcome of the
+	// exclusive create (`err == nil`: created; `os.IsExist(err)`: refused because the file exists)
+	addTranslated(trTarget{
+		name: "Lock", file: "martian/core/pipestance.go", recv: "Pipestance", fn: "Lock", traceTy: "events",
+		params: []trParam{{lean: "created", goText: "err == nil", leanTy: "Bool", ty: tyBool},
+			{lean: "exists_", goText: "os.IsExist(err)", leanTy: "Bool", ty: tyBool}},
+		effects: []trEffect{{"self.metadata.loadCache", "event", "loadCache"}, {"os.OpenFile", "event", "create"}, {"f.Close", "event", "close"},
+			{"util.RegisterSignalHandler", "event", "RegisterSignalHandler"}, {"self.metadata.WriteTime", "event", "WriteTime"}},
+		leanTy: "Bool → Bool → List String × Option String", resTy: tyErr,
+		deflt: trDefaults["Lock"],
+	})
+	// C05/C03  Chunk.step: the guard of a chunk's job submission and the `hasBeenRun` flag
+	addTranslated(trTarget{
+		name: "ChunkStep", file: "martian/core/stage.go", recv: "Chunk", fn: "step", void: true, traceTy: "events",
+		params: []trParam{{lean: "state", goText: "self.getState()", leanTy: "String", ty: tyName},
+			{lean: "hasBeenRun", goText: "self.hasBeenRun", leanTy: "Bool", ty: tyBool, isState: true}},
+		nameConsts: []string{"Ready"},
+		effects:    []trEffect{{"self.metadata.Write", "event", "Write"}, {"self.fork.node.runChunk", "event", "runChunk"}},
+		dropCalls:  []string{"self.fork.node.setChunkJobReqs", "self.chunkDef.Merge", "makeOutArgs"},
+		dropStmts:  []string{"if self.chunkDef.Resources == nil", "if self.fork.Split()", "self.fork.lastPrint ="},
+		voidOuts:   []string{"hasBeenRun"},
+		leanTy:     "String → Bool → List String × Bool",
+		deflt:      trDefaults["ChunkStep"],
+	})
+	// C09  BindStms.format, first loop: the column of the `=` signs
+	addTranslated(trTarget{
+		name: "idWidth", file: "martian/syntax/format_callable.go", recv: "BindStms", fn: "format",
+		from: "idWidth := 0", to: "for _, bindstm := range self.List", outs: []string{"idWidth"},
+		params: []trParam{{lean: "ids", goText: "self.List", leanTy: "List (List UInt8)", ty: tyRecList, fields: []trField{{"Id", tyStr}}}},
+		leanTy: "List (List UInt8) → Int",
+		deflt:  trDefaults["idWidth"],
+	})
+	// C09  BindStm.format: the bytes written for one binding (comments apart; the value by Exp.format)
+	addTranslated(trTarget{
+		name: "BindStmFormat", file: "martian/syntax/format_callable.go", recv: "BindStm", fn: "format", void: true, traceTy: "bytes",
+		params: []trParam{{lean: "pfx", goText: "prefix", leanTy: "List UInt8", ty: tyStr},
+			{lean: "idWidth", goText: "idWidth", leanTy: "Int", ty: tyInt},
+			{lean: "id_", goText: "self.Id", leanTy: "List UInt8", ty: tyStr},
+			{lean: "expFormat", goText: "self.Exp.format", leanTy: "List UInt8 → List UInt8", ty: tyStr, isFunc: true}},
+		effects: []trEffect{{"printer.mustWriteString", "writeStr", ""}, {"printer.mustWriteRune", "writeByte", ""},
+			{"self.Exp.format", "writeFn", "expFormat"}},
+		skipArgs: []string{"printer"}, dropCalls: []string{"printer.printComments"},
+		strConsts: map[string]string{"INDENT": "    ", "NEWLINE": "\n"},
+		leanTy:    "List UInt8 → Int → List UInt8 → (List UInt8 → List UInt8) → List UInt8",
+		deflt:     trDefaults["BindStmFormat"],
+	})
 }
